@@ -8,7 +8,7 @@ import tempfile
 import zlib
 
 from common import Codec, kv_line, render_sql, cps
-from impl import Env, scratch_root, POLICY, DEFAULT, _t
+from impl import Env, scratch_root, POLICY, DEFAULT, _t, db_page_size
 
 
 def dir_state(directory, local_ids, con=None, depth=0):
@@ -173,6 +173,20 @@ class LayerRunner:
         return self.finish(f, res)
 
 
+def route_of(fc, key, shards):
+    """shard index of a key: the FanoutCache's own routing function; if its private name changes, the
+    documented rule (the Disk's hash of the key modulo the number of shards)"""
+    try:
+        return fc._hash(key) % fc._count
+    except AttributeError:
+        import diskcache
+        probe = diskcache.Cache(os.path.join(fc.directory, '000'))
+        try:
+            return probe.disk.hash(key) % shards
+        finally:
+            probe.close()
+
+
 def tf(x):
     return 'T' if x is True else 'F' if x is False else repr(x)
 
@@ -186,7 +200,7 @@ class FanoutRunner(LayerRunner):
         return self.env.diskcache.FanoutCache(self.dir, shards=c['shards'], size_limit=c['limN'], **s)
 
     def page_size(self):
-        return self.obj._shards[0]._page_size
+        return db_page_size(os.path.join(self.dir, '000'))
 
     def state(self):
         parts = []
@@ -260,12 +274,14 @@ class FanoutRunner(LayerRunner):
         if m == 'traise':
             n = int(op.get('n', 1))
             f['n'] = n
-            exc = RuntimeError('abort')
+            cls_ = {'RuntimeError': RuntimeError, 'KeyboardInterrupt': KeyboardInterrupt, 'SystemExit': SystemExit}[op.get('exc', 'RuntimeError')]
+            exc = cls_('abort')
             for _ in range(min(n, len(self.blocks))):
                 try:
-                    self.blocks.pop().__exit__(RuntimeError, exc, None)
-                except RuntimeError:
-                    pass
+                    self.blocks.pop().__exit__(cls_, exc, None)
+                except BaseException as e_:      # noqa
+                    if e_ is not exc:
+                        raise
             return 'n'
         if m == 'get':
             return self.flags(c.get(k, default=DEFAULT, expire_time=bool(et), tag=bool(tg)), et, tg)
@@ -305,7 +321,7 @@ class FanoutRunner(LayerRunner):
             ws = [w for w in ws if not w.startswith('empty directory')]
             return '[]' if not ws else '!Inconsistent'
         if m == 'route':
-            return 'i%d' % (c._hash(k) % c._count)
+            return 'i%d' % route_of(c, k, self.cfg['shards'])
         raise ValueError(m)
 
 
@@ -321,7 +337,7 @@ class DequeRunner(LayerRunner):
             # which must never evict; brought to the history's settings afterwards
             self.fc = self.env.diskcache.FanoutCache(self.dir, shards=2)
             obj = self.fc.deque('d', maxlen=c.get('maxlen'))
-            cache = obj._cache
+            cache = obj.cache
             cache.reset('disk_min_file_size', c['mfs'])
             cache.reset('disk_pickle_protocol', c['proto'])
         else:
@@ -335,7 +351,7 @@ class DequeRunner(LayerRunner):
         return obj
 
     def page_size(self):
-        return self.cache._page_size
+        return db_page_size(self.cache.directory)
 
     def cfg_line(self):
         ml = self.cfg.get('maxlen')
@@ -439,14 +455,14 @@ class DequeRunner(LayerRunner):
                     new = pickle.loads(pickle.dumps(d))
                 else:
                     ml = d.maxlen
-                    d._cache.close()
+                    d.cache.close()
                     new = self.env.diskcache.Deque(directory=self.cdir, maxlen=ml)
             finally:
                 self.rec.enabled = True
             if type(new) is not type(d) or new.directory != d.directory:
                 return '!NotSameDirectory'
             self.obj = new
-            self.cache = new._cache
+            self.cache = new.cache
             return 'n'
         raise ValueError(m)
 
@@ -461,7 +477,7 @@ class IndexRunner(LayerRunner):
         if via == 'fanout' and self.owns_dir:
             self.fc = self.env.diskcache.FanoutCache(self.dir, shards=2)
             obj = self.fc.index('x')
-            cache = obj._cache
+            cache = obj.cache
             cache.reset('disk_min_file_size', c['mfs'])
             cache.reset('disk_pickle_protocol', c['proto'])
         else:
@@ -475,7 +491,7 @@ class IndexRunner(LayerRunner):
         return obj
 
     def page_size(self):
-        return self.cache._page_size
+        return db_page_size(self.cache.directory)
 
     def state(self):
         return dir_state(self.cdir, self.local_ids(self.cdir))
@@ -566,14 +582,14 @@ class IndexRunner(LayerRunner):
                     import pickle
                     new = pickle.loads(pickle.dumps(x))
                 else:
-                    x._cache.close()
+                    x.cache.close()
                     new = self.env.diskcache.Index(self.cdir)
             finally:
                 self.rec.enabled = True
             if type(new) is not type(x) or new.directory != x.directory:
                 return '!NotSameDirectory'
             self.obj = new
-            self.cache = new._cache
+            self.cache = new.cache
             return 'n'
         raise ValueError(m)
 
@@ -592,7 +608,7 @@ class DjangoRunner(LayerRunner):
         return DjangoCache(self.dir, params)
 
     def page_size(self):
-        return self.obj._cache._shards[0]._page_size
+        return db_page_size(os.path.join(self.dir, '000'))
 
     def cfg_line(self):
         c = self.cfg
